@@ -61,7 +61,7 @@ Qed.
 (* The assertion "WAL segments are not contiguous" of InnerLocustDB::new, the load of a missing
    partition file and the removal of a missing file cannot fire when a reachable state is restarted:
    the restart returns, or stops at one of the catalogue-loading sites (that these are unreachable
-   for well-formed histories is the open statement C13_compaction_carries_all_statement). *)
+   for well-formed histories is theorem C13_restart_total). *)
 Theorem C08_contiguity_assert_unreachable :
   forall (c : cfg) (ops : list op) (s : db),
     run true c ops (init c) = Val s ->
